@@ -232,14 +232,27 @@ const (
 )
 
 func pickOutcome(name string, allowAgain bool) int {
-	o := vf.Choice(name, nOut)
-	vf.Assume(vf.All(
-		vf.Implies(o == outAgain, K.Cfg.AllowAgain && allowAgain),
-		vf.Implies(o == outEOF, K.Cfg.AllowEOF),
-		vf.Implies(o == outErr, K.Cfg.AllowIOErr),
-		vf.Implies(o == outIntr, K.Cfg.AllowEINTR),
-	))
-	return o
+	var legal [nOut]int
+	n := 0
+	legal[n] = outData
+	n++
+	if K.Cfg.AllowAgain && allowAgain {
+		legal[n] = outAgain
+		n++
+	}
+	if K.Cfg.AllowEOF {
+		legal[n] = outEOF
+		n++
+	}
+	if K.Cfg.AllowIOErr {
+		legal[n] = outErr
+		n++
+	}
+	if K.Cfg.AllowEINTR {
+		legal[n] = outIntr
+		n++
+	}
+	return legal[vf.Choice(name, n)]
 }
 
 func Read(fd int, p []byte) (int, syscall.Errno) {
@@ -317,7 +330,7 @@ func Write(fd int, p []byte) (int, syscall.Errno) {
 		case outAgain:
 			return -1, syscall.EAGAIN
 		case outEOF:
-			vf.Assume(false) // write never returns 0 for a non-empty buffer in this model
+			return -1, syscall.EPIPE // write never returns 0 for a non-empty buffer: the peer is gone
 		case outErr:
 			return -1, syscall.EPIPE
 		case outIntr:
@@ -510,38 +523,72 @@ func EpollWait(epfd int, out []Ready, timeoutMs int) (int, syscall.Errno) {
 	}
 	K.Log.LastN = 0
 	for n < max {
-		pick := vf.Choice("epoll.pick", NFD) // 0 = no further entry
-		if pick == 0 {
+		// candidates: registered descriptors not yet in this batch that can be reported
+		var cand [NFD]int
+		nc := 0
+		for i := 3; i < NFD; i++ {
+			f := &K.FDs[i]
+			if f.Kind == KFree || taken[i] || !f.Ep[ep].Reg {
+				continue
+			}
+			switch f.Kind {
+			case KTimer:
+				if f.Expirations == 0 || f.Ep[ep].Events&EPOLLIN == 0 {
+					continue
+				}
+			case KEvent:
+				if f.Counter == 0 || f.Ep[ep].Events&EPOLLIN == 0 {
+					continue
+				}
+			}
+			cand[nc] = i
+			nc++
+		}
+		c := vf.Choice("epoll.pick", nc+1) // nc = no further entry
+		if c == nc {
 			break
 		}
-		vf.Assume(pick >= 3)
-		vf.Assume(!taken[pick])
+		pick := cand[c]
 		f := &K.FDs[pick]
-		vf.Assume(f.Kind != KFree)
-		vf.Assume(f.Ep[ep].Reg)
 		reg := f.Ep[ep].Events
 		var mask uint32
 		switch f.Kind {
-		case KTimer:
-			vf.Assume(vf.All(f.Expirations > 0, reg&EPOLLIN != 0))
-			mask = EPOLLIN
-		case KEvent:
-			vf.Assume(vf.All(f.Counter > 0, reg&EPOLLIN != 0))
+		case KTimer, KEvent:
 			mask = EPOLLIN
 		default:
-			mask = uint32(vf.Choice("epoll.mask", 32)) & (EPOLLIN | EPOLLOUT | EPOLLERR | EPOLLHUP)
-			hup := mask & (EPOLLERR | EPOLLHUP)
-			vf.Assume(mask != 0)
-			vf.Assume(mask&(EPOLLIN|EPOLLOUT)&^reg == 0) // IN/OUT only if asked for
-			if !K.Cfg.AllowHup {
-				vf.Assume(hup == 0)
-			} else if f.Kind != KPipeR && f.Kind != KPipeW {
-				// sockets: HUP/ERR come together with readability (and writability when asked for)
-				vf.Assume(vf.Implies(hup != 0, mask&reg&(EPOLLIN|EPOLLOUT) == reg&(EPOLLIN|EPOLLOUT)))
+			// legal masks: non-empty, IN/OUT only if asked for, ERR/HUP whether asked for or not
+			var legal [16]uint32
+			nl := 0
+			for m := uint32(1); m < 32; m++ {
+				if m&2 != 0 { // bit 1 (EPOLLPRI) is not modelled
+					continue
+				}
+				if m&(EPOLLIN|EPOLLOUT)&^reg != 0 {
+					continue
+				}
+				hup := m & (EPOLLERR | EPOLLHUP)
+				if hup != 0 {
+					if !K.Cfg.AllowHup {
+						continue
+					}
+					if f.Kind != KPipeR && f.Kind != KPipeW && m&reg&(EPOLLIN|EPOLLOUT) != reg&(EPOLLIN|EPOLLOUT) {
+						// sockets: HUP/ERR come together with readability (and writability when asked for)
+						continue
+					}
+				}
+				legal[nl] = m
+				nl++
 			}
+			if nl == 0 {
+				break
+			}
+			mask = legal[vf.Choice("epoll.mask", nl)]
 			if mask&(EPOLLERR|EPOLLHUP) != 0 {
 				f.HupSeen = true
 			}
+		}
+		if mask == 0 {
+			break
 		}
 		taken[pick] = true
 		out[n] = Ready{Events: mask, Data: f.Ep[ep].Data}
